@@ -91,7 +91,8 @@ def dedup (xs : List String) : List String := xs.foldl (fun acc x => if acc.cont
 def answer (idx : String) (expireds : List Bool) (kind len win setup thr order got fin : String) : String :=
   let k? : Option Kind :=
     if kind = "credit" then (natOf? len).map Kind.credit else if kind = "reconnect" then some .reconnect else none
-  match k?, natOf? win, parseSetup setup, parseThreads thr, parseOrder order with
+  -- `<window>` or `<window>/<replay capacity>` (the capacity is not a parameter of the model)
+  match k?, natOf? ((win.splitOn "/").headD ""), parseSetup setup, parseThreads thr, parseOrder order with
   | some k, some w, some su, some th, some ord =>
     let s0 := su.foldl (fun s o => match o with
       | some op => (applyOp Gen.Wake.cfg.tbl op s).1
